@@ -332,6 +332,112 @@ theorem consolidate_is_spec (ctx : Ctx) (st : Store) (l : List ((Nat × Nat) × 
     refine ⟨e, he, hek, ?_⟩
     rw [(h.2.1 e he).2.1, hek, hs]; exact hn.symm
 
+/-! ### the order in which the groups' resources are handed over does not matter -/
+
+theorem mem_consolidate_iff (l : List ((Nat × Nat) × Int)) (k : Nat × Nat) (n : Int) :
+    (k, n) ∈ Spec.consolidate l ↔ k ∈ l.map (·.1) ∧ n = amountAt l k := by
+  constructor
+  · intro h
+    exact ⟨(mem_consolidate_key l k).mp (List.mem_map.mpr ⟨_, h, rfl⟩), consolidate_entry h⟩
+  · rintro ⟨hk, rfl⟩
+    obtain ⟨x, hx, hxk⟩ := List.mem_map.mp ((mem_consolidate_key l k).mpr hk)
+    have := consolidate_entry hx
+    rw [hxk] at this
+    rw [← this, ← hxk]
+    exact hx
+
+theorem amountAt_append_comm (a b : List ((Nat × Nat) × Int)) (k : Nat × Nat) :
+    amountAt (a ++ b) k = amountAt (b ++ a) k := by
+  unfold amountAt
+  rw [sumBy_append, sumBy_append, Int.add_comm]
+
+/-- the consolidated request has the same entries whichever of the two parts comes first -/
+theorem mem_consolidate_append_comm (a b : List ((Nat × Nat) × Int)) (k : Nat × Nat) (n : Int) :
+    (k, n) ∈ Spec.consolidate (a ++ b) ↔ (k, n) ∈ Spec.consolidate (b ++ a) := by
+  rw [mem_consolidate_iff, mem_consolidate_iff, amountAt_append_comm a b k]
+  simp only [List.map_append, List.mem_append]
+  constructor
+  · rintro ⟨h | h, e⟩
+    · exact ⟨.inr h, e⟩
+    · exact ⟨.inl h, e⟩
+  · rintro ⟨h | h, e⟩
+    · exact ⟨.inr h, e⟩
+    · exact ⟨.inl h, e⟩
+
+/-- the two halves of `Spec.placements` -/
+def groupPlacements (q : Query) (ps : List RpRow) : List ((Nat × Nat) × Int) :=
+  (q.groups.zip ps).flatMap (fun gp => gp.1.resources.map (fun e => ((gp.2.id, e.1), e.2)))
+def unsuffPlacements (q : Query) (us : List RpRow) : List ((Nat × Nat) × Int) :=
+  (q.unsuffRes.zip us).map (fun eu => ((eu.2.id, eu.1.1), eu.1.2))
+
+theorem placements_eq (q : Query) (ps us : List RpRow) :
+    placements q ps us = groupPlacements q ps ++ unsuffPlacements q us := rfl
+
+/-- the object identities of the per-group requests when the objects sit in the store in the order in which the code
+walks them (unsuffixed group first): consecutive ranges -/
+def idsOfGroups : Nat → List Group → List (List Nat)
+  | _, [] => []
+  | base, g :: gs => List.range' base g.resources.length :: idsOfGroups (base + g.resources.length) gs
+
+theorem idsOfGroups_length : ∀ (base : Nat) (gs : List Group), (idsOfGroups base gs).length = gs.length
+  | _, [] => rfl
+  | base, g :: gs => by simp [idsOfGroups, idsOfGroups_length]
+
+theorem arrs_of_groupAreqs (anchor : Nat) :
+    ∀ (gs : List Group) (ps : List RpRow) (base : Nat), gs.length = ps.length →
+      ((gs.zip (ps.zip (idsOfGroups base gs))).map (fun x => groupAreq anchor x.1 x.2.1 x.2.2)).flatMap (·.arrs) =
+        List.range' base ((gs.zip ps).flatMap (fun gp => gp.1.resources.map (fun e => ((gp.2.id, e.1), e.2)))).length
+  | [], [], base, _ => by simp [idsOfGroups]
+  | [], _ :: _, _, h => by simp at h
+  | _ :: _, [], _, h => by simp at h
+  | g :: gs, p :: ps, base, h => by
+    have ih := arrs_of_groupAreqs anchor gs ps (base + g.resources.length) (by simpa using h)
+    simp only [idsOfGroups, List.zip_cons_cons, List.map_cons, List.flatMap_cons, List.length_append,
+      List.length_map]
+    rw [ih, ← List.range'_append_1]
+    rfl
+
+/-- **amounts of an accepted combination = `Spec.build`'s `alloc`** (item 4, complete): the objects of the per-group
+requests are fresh objects holding the placements, in the order the code walks them.  The pairs (key, amount) the
+consolidation returns are exactly the entries of `(build q ps us).alloc`. -/
+theorem consolidate_specCombo_is_build (ctx : Ctx) (st : Store) (anchor : Nat) (q : Query) (ps us : List RpRow)
+    (h1 : q.groups.length = ps.length)
+    (hmulti : ∀ k, 2 ≤ ((placements q ps us).map (·.1)).count k → ctx.multiRcs.contains k.2 = true) :
+    let lU := unsuffPlacements q us
+    let lG := groupPlacements q ps
+    let st0 := st ++ (lU ++ lG).map toArr
+    let combo := specCombo anchor q ps us (List.range' st.length lU.length)
+      (idsOfGroups (st.length + lU.length) q.groups)
+    let r := consolidateArrs ctx st0 [] (combo.flatMap (·.arrs))
+    (∀ n, n < st0.length → getArr r.1 n = getArr st0 n) ∧
+    (∀ k n, (∃ e ∈ r.2, e.1 = k ∧ (getArr r.1 e.2).amount = n) ↔ (k, n) ∈ (build q ps us).alloc) := by
+  intro lU lG st0 combo r
+  have harrs : combo.flatMap (·.arrs) = List.range' st.length (lU ++ lG).length := by
+    show (specCombo anchor q ps us _ _).flatMap (·.arrs) = _
+    unfold specCombo
+    rw [List.flatMap_append, arrs_of_groupAreqs anchor q.groups ps _ h1, List.length_append, ← List.range'_append_1]
+    congr 1
+    cases hq : q.unsuff with
+    | none =>
+      have : lU = [] := by show unsuffPlacements q us = []; simp [unsuffPlacements, Query.unsuffRes, hq]
+      simp [this]
+    | some g => simp [unsuffAreq]
+  have hm : ∀ k, 2 ≤ ((lU ++ lG).map (·.1)).count k → ctx.multiRcs.contains k.2 = true := by
+    intro k hk
+    apply hmulti k
+    rw [placements_eq]
+    simpa [List.count_append, Nat.add_comm] using hk
+  have h := consolidate_is_spec ctx st (lU ++ lG) hm
+  have hr : r = consolidateArrs ctx (st ++ (lU ++ lG).map toArr) [] (List.range' st.length (lU ++ lG).length) := by
+    show consolidateArrs ctx st0 [] (combo.flatMap (·.arrs)) = _
+    rw [harrs]
+  rw [hr]
+  refine ⟨fun n hn => h.1 n (by simpa [st0] using hn), fun k n => ?_⟩
+  rw [h.2 k n]
+  show (k, n) ∈ Spec.consolidate (lU ++ lG) ↔ (k, n) ∈ Spec.consolidate (placements q ps us)
+  rw [placements_eq]
+  exact mem_consolidate_append_comm lU lG k n
+
 /-! ### mappings -/
 
 /-- strictly ascending -/
